@@ -160,6 +160,9 @@ Wrap(n) ==
     /\ last' = [act |-> "Wrap", lhs |-> n, raises |-> ""]
 
 \* n[t1, t2] = SetVec   (type names by index; 0 stands for a name the object does not have)
+\* The step is defined on the VALUES of the pair function: how the caller holds them (ndarray, list, tuple, strided view,
+\* integers) is not part of the abstract state, so the replay performs every SetItem edge with each representation and
+\* demands the same successor state (clause SetItemSymmetric.<form> of harness/props/c13).
 SetVec == [l \in Li |-> <<7 * l, 2>>]
 SetItem(n, t1, t2) ==
     /\ steps < MaxSteps /\ Exists(n)
